@@ -59,7 +59,7 @@ Section Nonint.
     knobs s1 = knobs s2 /\ va s1 = va s2 /\ ta s1 = ta s2 /\ sx s1 = sx s2 /\ mfl s1 = mfl s2 /\
     lpwt s1 = lpwt s2 /\ agree_off j (lres s1) (lres s2) /\ agree_off j (ltw s1) (ltw s2) /\
     pen_after s1 = pen_after s2 /\ alpha_last s1 = alpha_last s2 /\ bro s1 = bro s2 /\
-    Forall2 rowR (log s1) (log s2) /\ ragged s1 = ragged s2 /\ ncall s1 = ncall s2.
+    Forall2 rowR (log s1) (log s2) /\ ncall s1 = ncall s2.
 
   Definition resR {A} (RA : A -> A -> Prop) (r1 r2 : res A) : Prop :=
     match r1, r2 with
@@ -123,7 +123,7 @@ Section Nonint.
   Lemma merit_R x chk s1 s2 : stR s1 s2 -> off (ta s1) ->
     resR (fun p q => fst p = fst q /\ stR (snd p) (snd q)) (merit_call E1 cf x chk s1) (merit_call E2 cf x chk s2).
   Proof.
-    intros (K & V & T & X & M & P & L & W & Pa & Al & B & Lg & Rg & Nc) Hoff.
+    intros (K & V & T & X & M & P & L & W & Pa & Al & B & Lg & Nc) Hoff.
     unfold merit_call. cbn [e_f with_f]. change (eF E1) with (eF E). change (eF E2) with (eF E).
     rewrite <- K, <- V, <- T.
     change (write_knobs E2 chk (va s1) (c_lim cf) (x_to_knobs E2 cf x) (knobs s1))
@@ -279,7 +279,7 @@ Section Nonint.
         unfold rowR; cbn. repeat split; auto; congruence.
       + split; stsimpl; [congruence|]. unfold rows_off; stsimpl. rewrite L. apply Forall_app; split; auto.
         constructor; auto. cbn. congruence.
-    - destruct R as (A & C). destruct P as ((_ & T & L & _) & _). normE. cbn. split; auto. stR_solve.
+    - cbn. exact R.
   Qed.
 
   Lemma rows_nth (l1 l2 : list row) i : Forall2 rowR l1 l2 ->
@@ -486,7 +486,7 @@ Section Nonint.
         eapply Forall_impl; [|exact Fm]. intros r [_ (_ & Rt & _)]. cbn in Rt. rewrite Rt. exact (proj1 Ho). }
       unfold B1. eapply post_bind'; [apply (step_core_spec E1 cf fuel k tb b)| |].
       - intros e t (_ & (m & L & Fm)). eapply Hrows; eauto.
-      - intros t (_ & _ & _ & _ & (r0 & M & extra & L & _ & Fm & _)).
+      - intros t (_ & _ & _ & (r0 & M & extra & L & _ & Fm & _)).
         destruct (c_assert cf && negb (lpwt t)); cbn; auto. eapply Hrows; eauto. }
     destruct B1 as [t1|e1 t1|], B2 as [t2|e2 t2|]; cbn in Rb, Pb; try tauto.
     destruct Rb as [-> T].
